@@ -1,6 +1,8 @@
 // Query interface of the simulated pthread layer (for harness oracles). Objects are numbered in creation order.
 #pragma once
 #include "sim.h"
+#include <vector>
+#include <stdint.h>
 namespace sim { namespace shim {
 enum Kind { K_MUTEX, K_COND, K_RWLOCK, K_KEY, K_THREAD, K_KINDS };
 int last_created(int kind);            // number of the last object of that kind created by the current task (-1 none)
@@ -9,6 +11,9 @@ int live_count(int kind);              // initialised and not destroyed
 int mutex_owner(int num);              // task id or -1
 int mutex_of_addr(const void *addr);   // number or -1
 int cond_waiters(int num);
+std::vector<int> cond_waiter_ids(int num);   // tasks parked on that native condition variable right now
+uint64_t cond_wakes(int num);                // wake-ups delivered by signal / broadcast on it so far
+uint64_t task_cond_wakes(int tid);           // times that task was taken out of a condition wait (signal, broadcast, spurious)
 int cond_of_addr(const void *addr);
 int rw_readers(int num); int rw_writer(int num);
 int thread_task(int num);              // task id of simulated thread number
